@@ -20,7 +20,9 @@ def cases(draw, big=False):
             'aseed': draw(st.integers(0, 200)),
             'temperature': round(math.exp(t), 4),
             'gumbel': draw(st.booleans()), 'hard': draw(st.booleans()),
-            'train_first': draw(st.booleans())}
+            'train_first': draw(st.booleans()),
+            # the network is handed over in training mode (the default state of a new module)
+            'wrap_train': draw(st.booleans())}
 
 
 def _quant_layers(exported):
@@ -39,7 +41,7 @@ def oracle(case) -> Result:
     spec = case['spec']
     mps, x0 = mu.build_mps(spec, case['wseed'], case['w_prec'], case['a_prec'],
                            temperature=case['temperature'], gumbel_softmax=case['gumbel'],
-                           hard_softmax=case['hard'])
+                           hard_softmax=case['hard'], wrap_train=bool(case.get('wrap_train')))
     mu.set_coefficients(mps, case['aseed'])
     x = mu.mps_input(spec, case['xseed'])
     if case['train_first']:
